@@ -29,3 +29,6 @@ import TFV.Properties.Src.MemoryUpdate
 #print axioms TFV.Properties.Src.JdeParams.C15_src_jde_mutate_CR
 #print axioms TFV.Properties.Src.MemoryUpdate.C15_src_shade_update_u_CR
 #print axioms TFV.Properties.Src.MemoryUpdate.C15_src_shaga_update_u
+#print axioms TFV.Properties.Src.MemoryUpdate.C15_src_lehmer_mean_weighted
+#print axioms TFV.Properties.Src.MemoryUpdate.C15_src_lehmer_mean_plain
+#print axioms TFV.Properties.Src.MemoryUpdate.C15_src_shaga_update_u_composed
